@@ -142,3 +142,8 @@ func TestC18Rand(t *testing.T)  { RunProp(t, "C18", "hosts-and-replies", genDial
 func TestC16(t *testing.T) { RunProp(t, "C16", "handshake-faults", genHSPath, checkC16) }
 
 func TestC03Sweep(t *testing.T) { RunEnum(t, "C03", "mask-carry-sweep", enumMaskSweep, checkMaskSweep) }
+
+// TestC20Conc runs in the -race binary: the connections sharing the pool run in parallel goroutines.
+func TestC20Conc(t *testing.T) {
+	RunProp(t, "C20", "pool-concurrent", func(rt *rapid.T) PoolCase { c := genPoolCase(rt); c.Conc = true; return c }, checkC20)
+}
